@@ -221,6 +221,15 @@ func VH_C20_Named(p []int) {
 		root = And().Push("a", Or().SetParen(pb()).Push((*Stack)(nil)), "b")
 	case 9:
 		root = And().Push(Or().SetParen(pb()).Push((*Condition)(nil)), List().Push((*vhAliasStack)(nil)))
+	case 13: // chains of lone envelopes in the LAST slot of nodes with index options
+		chain := func() Stack { return Or().Push(And().Push(Or().Push(And().Push("x", "y")))) }
+		root = And().Push("a", chain())
+		inner := List().Push("b", Or().Push(Cond("k", Eq, "v")), chain())
+		*root.stack = append(*root.stack, inner)
+		for _, n := range []Stack{root, inner} {
+			cfg, _ := n.config()
+			cfg.opt = cfgFlag(nondetUint16()) & (negidx | fwdidx | parens)
+		}
 	case 12: // receivers that hold nothing: Reveal is a no-op, not a crash
 		var z Stack
 		z.Reveal()
